@@ -337,4 +337,25 @@ theorem dense_bound (m : ℕ) (u : ℕ → ℤ) (v : ℤ) (hv : 0 ≤ v)
   have h3 : (v + 1 - 0).toNat ≤ m := le_trans h1 h2
   omega
 
+
+/-- C01: L pairwise distinct values that all occur among u 0 .. u (m-1) need m >= L (pigeonhole; used for "the number of distinct sample
+names equals the length of a duplicate-free mapping"). -/
+theorem distinct_le {α : Type} [DecidableEq α] (L m : ℕ) (a u : ℕ → α)
+    (hinj : ∀ i j, i < L → j < L → a i = a j → i = j)
+    (hin : ∀ i, i < L → ∃ j, j < m ∧ u j = a i) : L ≤ m := by
+  have h1 : ((Finset.range L).image a).card = L := by
+    rw [Finset.card_image_of_injOn]
+    · simp
+    · intro i hi j hj h
+      exact hinj i j (Finset.mem_range.mp hi) (Finset.mem_range.mp hj) h
+  have hsub : (Finset.range L).image a ⊆ (Finset.range m).image u := by
+    intro x hx
+    obtain ⟨i, hi, rfl⟩ := Finset.mem_image.mp hx
+    obtain ⟨j, hj, hj2⟩ := hin i (Finset.mem_range.mp hi)
+    exact Finset.mem_image.mpr ⟨j, Finset.mem_range.mpr hj, hj2⟩
+  have h2 := Finset.card_le_card hsub
+  have h3 : ((Finset.range m).image u).card ≤ m := by
+    simpa using Finset.card_image_le (s := Finset.range m) (f := u)
+  omega
+
 end Batchie
